@@ -57,6 +57,10 @@ def step (s : S) (line : String) : S × String :=
       let (t', out) := put s.cfg s.thr s.tab k l
       ({ s with tab := t' }, out.label)
     | _, _, _, _ => (s, "bad-op")
+  | ["putf", k, b, _, _] =>      -- a store whose first record read fails: the I/O error is returned, nothing changes
+    match nat? k, nat? b with
+    | some k, some b => if !s.declared k || b ≥ s.blocks then (s, "bad-op") else (s, "error:Internal")
+    | _, _ => (s, "bad-op")
   | ["get", k] =>
     match nat? k with
     | some k =>
